@@ -245,10 +245,21 @@ Inductive c06_leaf_result :=
 (* where: C6InObject = a string token of an indirect object read by Objects::readObject once `encrypted` is
    set; C6InObjStm = parsed by the object-stream overload of Parser::parse (no decrypter); C6InTrailer =
    og is not indirect (direct in the trailer) *)
-Definition c06_decrypt_string (st : c06_state) (w : c06_where) (num gen : N) (s : list N) : c06_leaf_result :=
+(* does a string token at this place go through the StringDecrypter (and stay decrypted)?
+   C6InSigContents: QPDFParser remembers the raw /Contents string of every dictionary it parses with a decrypter and
+   puts it back when the finished dictionary has /Type /Sig, a /ByteRange and a string /Contents (QPDFParser.cc,
+   'contents_string'); a signature dictionary without /Type is not recognised and its /Contents stays 'decrypted' *)
+Definition c06_where_decrypts (w : c06_where) : bool :=
   match w with
-  | C6InObjStm | C6InTrailer => C6LeafOk s false
-  | C6InObject =>
+  | C6InObject => true
+  | C6InObjStm | C6InTrailer => false
+  | C6InSigContents typed => negb typed
+  end.
+
+Definition c06_decrypt_string (st : c06_state) (w : c06_where) (num gen : N) (s : list N) : c06_leaf_result :=
+  match c06_where_decrypts w with
+  | false => C6LeafOk s false
+  | true =>
       let dec := if 4 <=? c6t_V st then c06_switch (c6t_cf_string st) else Some (false, false) in
       match dec with
       | None => C6LeafOk s false
@@ -343,9 +354,9 @@ Definition c06_method_cfm (V : N) (dec : option (bool * bool)) : c06_cfm :=
   | Some (true, _) => if 5 <=? V then C6AESV3 else C6AESV2
   end.
 Definition c06_reader_string_cfm (st : c06_state) (w : c06_where) : c06_cfm :=
-  match w with
-  | C6InObjStm | C6InTrailer => C6None
-  | C6InObject => c06_method_cfm (c6t_V st) (if 4 <=? c6t_V st then c06_switch (c6t_cf_string st) else Some (false, false))
+  match c06_where_decrypts w with
+  | false => C6None
+  | true => c06_method_cfm (c6t_V st) (if 4 <=? c6t_V st then c06_switch (c6t_cf_string st) else Some (false, false))
   end.
 Definition c06_reader_stream_cfm (st : c06_state) (s : c06_sdict) : c06_cfm :=
   if c6d_xref s then C6None else
